@@ -5,6 +5,7 @@
 -/
 import CoseModel.Headers
 import CoseModel.Ecdsa
+import CoseModel.TagScan
 namespace CoseModel
 
 structure Key where
@@ -145,7 +146,7 @@ def Key.ofMap (tmp : GoMap) : Out Key :=
     let id := paramBytes tmp 2
     let alg := match tmp.lookup (lbl 3) with
       | none => Lk.val 0
-      | some (.int .i64 a) => Lk.val a
+      | some (.int .i64 a) => if a = 0 then Lk.bad else Lk.val a  -- the reserved value, present
       | some _ => Lk.bad
     let ops : Lk (Option (List Int)) := match tmp.lookup (lbl 4) with
       | none => Lk.val none
@@ -169,16 +170,21 @@ def Key.ofMap (tmp : GoMap) : Out Key :=
          | none => .ok k)
   | _ => .err .other
 
+/-- `Key.UnmarshalCBOR` (key.go:599).  A tag head is refused first (key.go:602).  Go then decodes
+    into `map[any]any` and after that runs `ensureUntaggedHeaderLabels(data, nil)`; the two
+    refusals are of one class, so their order does not show, and the model asks the scan first:
+    it decides inputs on which the generic decode of tagged values is not modelled. -/
 def Key.unmarshal (data : Bytes) : Out Key :=
+  if isTagByte data then .err .other else
   match parseTop true data with
   | none => .err .other
   | some (.map _ kvs) =>
+    if !ensureUntaggedHeaderLabels data none then .err .other else
     (match decodePairs kvs [] with
      | .ok tmp => Key.ofMap tmp
      | .err e => .err e
      | .panic => .panic
      | .unmodelled => .unmodelled)
-  | some (.tag ..) => .unmodelled
   | some _ => .err .other
 
 /-! ### encode -/
